@@ -32,7 +32,11 @@ PathChoices ==
     [st |-> "mixed",  v |-> Lst(<<Str("hero"), Str("friends"), Int("1"), Str("name")>>),
                       txt |-> "hero/friends/1/name"],
     [st |-> "index",  v |-> Lst(<<Str("list"), Int("0"), Int("2147483647")>>), txt |-> "list/0/2147483647"],
-    [st |-> "uni",    v |-> Lst(<<Str("$nonascii"), Int("2")>>), txt |-> "$nonascii/2"] }
+    [st |-> "uni",    v |-> Lst(<<Str("$nonascii"), Int("2")>>), txt |-> "$nonascii/2"],
+    \* the same key / index more than once (nested lists, recursive structures); a single element
+    [st |-> "repeat", v |-> Lst(<<Str("rows"), Int("0"), Str("rows"), Int("0")>>), txt |-> "rows/0/rows/0"],
+    [st |-> "same",   v |-> Lst(<<Int("1"), Int("1"), Str("n"), Str("n")>>), txt |-> "1/1/n/n"],
+    [st |-> "single", v |-> Lst(<<Int("0")>>), txt |-> "0"] }
 
 NestedJson == Obj(<<KV("code", Str("E_FAIL")), KV("n", Int("42")), KV("f", Sc("float", "1.5")),
                     KV("arr", Lst(<<Int("1"), Null, Str("x"), Obj(<<KV("deep", Sc("bool", "true"))>>)>>)),
